@@ -197,6 +197,8 @@ def run(model, rep, tier):
                       f"parser hook reads self.{', self.'.join(used)}, which only the user-facing constructor sets: for a message built by the wire/text reader it holds the default (e.g. class IN), so decoded records differ from the rendered ones", stmt="hook-state")
     rep.floor("R-03.4-hooks", n_hooks, 3)
     from rules.c08 import check_padded_opt
+    from rules.c08 import check_rollback_purge
+    check_rollback_purge(model, rep, "R-03.3")
     check_padded_opt(model, rep, "R-03.5")
     rep.meta["explanation"] = (
         "Layout agreement of the hand-written writer/reader pairs at the message layer (struct formats folded and compared field by field), statement-position rule for the section counts, "
